@@ -251,4 +251,81 @@ theorem genTables_tablesSound {G : Grammar} {K fuel : Nat} {T : LLTables} (hd : 
     obtain ⟨r, hr, rfl⟩ := List.mem_map.1 hpr
     exact genProd_noEoi hno hr
 
+/-! ## no false conflict -/
+
+theorem genAutos_error {G : Grammar} {fuel K : Nat} {e : GenErr} :
+    ∀ (l : List Nat), genAutos G fuel K l = .error e → ∃ A ∈ l, genAuto G fuel K A = .error e := by
+  intro l
+  induction l with
+  | nil => intro h; cases h
+  | cons B rest ih =>
+    intro h
+    simp only [genAutos] at h
+    split at h
+    · rename_i e' he'
+      injection h with h
+      subst h
+      exact ⟨B, List.mem_cons_self, he'⟩
+    · split at h
+      · rename_i e' he'
+        injection h with h
+        subst h
+        obtain ⟨A, hA, hAe⟩ := ih he'
+        exact ⟨A, List.mem_cons_of_mem _ hA, hAe⟩
+      · cases h
+
+theorem genAuto_conflict_inv {G : Grammar} {fuel K A : Nat} (h : genAuto G fuel K A = .error .conflict) :
+    ∃ k sets, decidableM G fuel A K = .ok k ∧ laSets G fuel A k = some sets ∧
+      uniteAll true k sets = some (.error .conflict) := by
+  unfold genAuto at h
+  split at h
+  · rename_i k hk
+    split at h
+    · cases h
+    · rename_i sets hsets
+      split at h
+      · cases h
+      · rename_i e he
+        injection h with h
+        cases e <;> simp [GenErr.ofLa] at h
+        exact ⟨k, sets, hk, hsets, he⟩
+      · split at h <;> cases h
+  · rename_i e hne
+    injection h with h
+    cases he : decidableM G fuel A K with
+    | ok k => exact absurd he (hne k)
+    | errMaxK => rw [he] at h; cases h
+    | errNotPart => rw [he] at h; cases h
+    | fuel => rw [he] at h; cases h
+
+/-- for a grammar of the class the uniting loop never reports `Conflict in union operation` -/
+theorem genAuto_no_conflict {G : Grammar} {fuel K A : Nat} (hno : NoEoi G)
+    (hprod : KS.Productive G) (hreach : KS.Reachable G) (hnlr : NoLeftRec G) :
+    genAuto G fuel K A ≠ .error .conflict := by
+  intro h
+  obtain ⟨k, sets, hdec, hsets, hconf⟩ := genAuto_conflict_inv h
+  obtain ⟨i0, p0, hp0, hl0⟩ := decidableM_ok_prod hdec
+  rcases decidableM_ok_inv hdec with ⟨rfl, pi, hpi⟩ | ⟨hk, sets', hsets', hdis⟩
+  · obtain ⟨hkeys, _⟩ := laSets_zero_nil hno hsets
+    rw [hpi] at hkeys
+    match sets, hkeys, hconf with
+    | [(a, S)], _, hconf =>
+      simp only [uniteAll, List.foldlM_nil, Option.some.injEq] at hconf
+      cases hconf
+  · rw [hsets] at hsets'
+    injection hsets' with hsets'
+    subst hsets'
+    obtain ⟨hc1, hc2⟩ := laSets_some_comp hsets
+    have hspecAt := setsAreSpecAt_of_class hno hprod hreach hnlr hk hc1 hc2
+    have hne : ∃ f, FollowK G k A f := by
+      obtain ⟨f, hf⟩ := followKc_inh hreach (List.mem_of_getElem? hp0) k
+      exact ⟨f, hl0 ▸ followK_iff_ctx.2 hf⟩
+    have hspec := laSets_spec hk hno hspecAt hne hsets
+    have ok := setsOk_of_laSpec hno hprod hreach hspec hdis
+    have hnil : sets ≠ [] := by
+      intro e; subst e; simp [uniteAll] at hconf
+    rcases unite_no_false_conflict k ok hnil with ⟨d, hd⟩ | hf
+    · rw [hd] at hconf; cases hconf
+    · rw [hf] at hconf; cases hconf
+
 end ParolModel
